@@ -168,6 +168,15 @@ func evalC18(c *engine.Case) engine.Verdict {
 	if zero {
 		v.Class("zero-weight")
 	}
+	for _, wt := range w {
+		if wt >= 1<<31-1 {
+			v.Class("weight-beyond-32-bits")
+			break
+		}
+	}
+	if gc.N > 24 {
+		v.Class("vertices>24")
+	}
 	v.Class(fmt.Sprintf("reachable=%d", min(reach/4*4, 20)))
 	v.NonTrivial = multiPred
 	return v
